@@ -41,3 +41,4 @@ package satellite
 //@ func (*Cell).String
 //@ requires[C07] cell != nil
 //@ arith wrap
+//@ atcall[C08] fmt.Sprintf /^%2d \{%s, %d, %s\}$/: (cell.RangeWholeMillis == 255 ==> argstr(a1, 1) == "invalid") && (cell.PhaseRangeRate == 0 - 8192 ==> argstr(a1, 3) == "invalid")
